@@ -427,6 +427,27 @@ def vary_arguments(mk: Maker, f, args):
             if k in defaults and rng.random() < 0.6:
                 del args[k]
                 feats.add("defaults-used")
+    if rng.random() < 0.12:  # one argument of the right type but the wrong shape / dtype / length: most such calls raise half-way
+        cands = [k for k, v in args.items() if k not in ("self", "cls") and (len(v) > 0 if isinstance(v, (list, dict)) else isinstance(v, np.ndarray) and v.ndim > 0 and v.shape[0] > 0)]
+        if cands:
+            k = rng.choice(sorted(cands))
+            v = args[k]
+            if isinstance(v, np.ndarray) and not v.dtype.names and v.dtype.kind == "f":
+                kind = rng.choice(["int", "bool", "float32", "extra-axis", "flat", "empty", "one-short", "fortran", "inf"])
+                w = np.nan_to_num(v)
+                args[k] = {"int": lambda: w.astype(np.int64), "bool": lambda: w > 0, "float32": lambda: v.astype(np.float32),
+                           "extra-axis": lambda: v[..., None].copy(), "flat": lambda: v.ravel().copy(), "empty": lambda: v[:0].copy(),
+                           "one-short": lambda: v[:-1].copy(), "fortran": lambda: np.asfortranarray(v),
+                           "inf": lambda: np.where(np.arange(v.size).reshape(v.shape) % 3 == 0, np.inf, v)}[kind]()
+            elif isinstance(v, np.ndarray):
+                kind = rng.choice(["empty", "one-short"])
+                args[k] = v[:0].copy() if kind == "empty" else v[:-1].copy()
+            elif isinstance(v, list):
+                kind = rng.choice(["empty", "one-short"])
+                args[k] = [] if kind == "empty" else v[:-1]
+            else:
+                kind, args[k] = "empty", {}
+            feats.add("malformed-argument:" + kind)
     return feats
 
 
@@ -1272,7 +1293,11 @@ class C19(Prop):
             try:
                 result = self.invoke(name, kind, args)
                 if inspect.isgenerator(result):  # csv_valid_lines, read_datafile_csvs: the body runs when iterated
-                    result = list(result)
+                    if case["aseed"] != 0 and rng.random() < 0.3:  # ... as far as the caller iterates
+                        result = [next(result, None)] + [result.close()][:0]
+                        feats.add("generator-partially-consumed")
+                    else:
+                        result = list(result)
             except Exception as e:  # arguments that make the call fail are part of the quantifier
                 raised = type(e).__name__
             finally:
